@@ -70,6 +70,26 @@ def run(job):
                                    "g": 0.5 * (float(p.gravity[a]) + float(p.gravity[b])), "rho_lower": float(p.density[a]), "rho_upper": float(p.density[b]),
                                    "r": float(p.radius[a])})
         out["types"][t] = d
+    # "for each requested solution type independently": every type solved alone must give the same rows as inside the combined call
+    if len(job["solve_for"]) > 1:
+        out["alone_diff"] = {}
+        for j, t in enumerate(job["solve_for"]):
+            try:
+                s1 = solve(p, job["freq"], degree_l=job.get("l", 2), solve_for=(t,), use_kamata=True, integration_method="DOP853",
+                           integration_rtol=1e-9, integration_atol=1e-12, nondimensionalize=job.get("nondim", True), warnings=False)
+            except Exception as ex:
+                out["alone_diff"][t] = "raised " + type(ex).__name__
+                continue
+            if not s1["success"]:
+                out["alone_diff"][t] = "failed"
+                continue
+            a, b = s1["result"][0:6, :], res[6 * j:6 * j + 6, :]
+            same_nan = np.array_equal(np.isnan(a), np.isnan(b))
+            sc = float(np.nanmax(np.abs(b))) if np.any(~np.isnan(b)) else 0.0
+            rowmax = np.array([np.nanmax(np.abs(b[i])) if np.any(~np.isnan(b[i])) else 1.0 for i in range(6)])
+            rowmax = np.where(rowmax == 0, 1.0, rowmax)
+            dd = float(np.nanmax(np.abs(np.nan_to_num(a - b)) / rowmax[:, None])) if a.size else 0.0
+            out["alone_diff"][t] = dd if same_nan else "nan_pattern"
     return out
 
 
